@@ -14,7 +14,13 @@ the 64-bit code.  The check replays on real timing.Freq values
       2^53, 2^63 and to the top of the 64-bit range;
   (c) the hypotheses of ClockW (t within one period of the top of the word, result still fitting),
       re-instantiated at 2^64;
-  (d) seeded random (frequency, time, n).
+  (d) seeded random (frequency, time, n);
+  (e) frequencies whose period is NOT a whole number of picoseconds (boundary families with 10^12 mod f next to
+      0, f/2 and f; common clock rates such as 1.2/1.5/1.6/2.4/3.2 GHz, 333/666 MHz; small primes; 999 999 999 999 Hz;
+      a seeded log-uniform sample over 1 Hz..1 THz): the driver first asks the code for p = Period(); p must be
+      10^12/f rounded to a whole picosecond (either direction, >= 1); then Clock.tla's definitions instantiated with
+      that p are demanded of ThisTick / NextTick / NCyclesLater / Cycle (table rows for small p, the scaled shapes, the
+      top of the 64-bit range) — the four functions must agree with each other through the same period.
 Only results that fit in 64 bits are compared (the quantifier of the property).
 """
 from vlib import core
@@ -26,8 +32,11 @@ TECHNIQUE = ("TLA+ (Clock.tla: mathematical definitions + lemmas; ClockW.tla: Go
 LEVEL_TEXT = ("TLC explores every period/time of the bounded models (lemmas, monotonicity, W-bit agreement); the "
               "emitted table, its re-instantiation at 64-bit boundaries and the W-bit disagreement shapes are "
               "evaluated on the real functions for all 169 frequencies with an exact period.")
-LEVEL_NOTE = ("64-bit inputs are sampled (boundary shapes + seeded random), not exhausted; frequencies whose "
-              "period 10^12/f is not an integer are out of scope (Period() truncates).")
+LEVEL_NOTE = ("64-bit inputs are sampled (boundary shapes + seeded random), not exhausted. For a frequency whose period "
+              "10^12/f is not a whole number of picoseconds the statement speaks of 'the period' without fixing how it is "
+              "rounded, so Period() is left free between floor and ceiling (it must be >= 1 and within 1 ps of 10^12/f) and "
+              "the oracle demands the mutual consistency of the four functions through the period the code reports; for the "
+              "169 frequencies with a whole period, Period() must be exactly 10^12/f.")
 
 M64 = 1 << 64
 PS = 10 ** 12
@@ -108,13 +117,15 @@ def run(ck):
 
     cases, meta, seen = [], [], set()
 
-    def add(P, t, n, origin):
-        if not (0 <= t < M64) or (P, t, n) in seen:
+    def add(P, t, n, origin, f=None):
+        """P is the period: 10^12/f for an exact frequency (f=None), the period the code reports otherwise."""
+        f = PS // P if f is None else f
+        if not (0 <= t < M64) or (f, t, n) in seen:
             return
-        seen.add((P, t, n))
+        seen.add((f, t, n))
         e = expect(P, t, n)
-        cases.append(dict(f=str(PS // P), period=str(P), t=str(t), n=n, **e))
-        meta.append(dict(P=P, t=t, n=n, origin=origin))
+        cases.append(dict(f=str(f), period=str(P), t=str(t), n=n, **e))
+        meta.append(dict(P=P, t=t, n=n, origin=origin, exact=(PS % f == 0)))
 
     # (a) the table itself
     n_direct = 0
@@ -131,15 +142,15 @@ def run(ck):
     # (b) shapes at large times, every exact frequency
     ns_small = sorted({w["n"] for w in rows})
     bounds = [1 << 31, 1 << 32, 1 << 52, 1 << 53, 1 << 62, 1 << 63, M64 - 1]
-    for P in periods:
-        ks = {0, 1, 2, 3, 7}
-        for b in bounds:
+    def shapes(P, origin, f=None, light=False):
+        ks = {0, 1, 7} if light else {0, 1, 2, 3, 7}
+        for b in (bounds[1::2] if light else bounds):
             kb = b // P
-            ks |= {kb - 1, kb, kb + 1} if q else {kb - 2, kb - 1, kb, kb + 1}
+            ks |= {kb, kb + 1} if light else ({kb - 1, kb, kb + 1} if q else {kb - 2, kb - 1, kb, kb + 1})
         ktop = (M64 - 1) // P
-        ks |= {ktop - 3, ktop - 2, ktop - 1, ktop}
-        ks |= {rng.randrange(0, ktop + 1) for _ in range(2 if q else 8)}
-        ds = {0, 1, P - 1, P // 2, P // 2 + 1, rng.randrange(0, P), rng.randrange(0, P)}
+        ks |= {ktop} if light else {ktop - 3, ktop - 2, ktop - 1, ktop}
+        ks |= {rng.randrange(0, ktop + 1) for _ in range(1 if light else (2 if q else 8))}
+        ds = {0, 1, P - 1, rng.randrange(0, P)} | (set() if light else {P // 2} if q else {P // 2, P // 2 + 1, rng.randrange(0, P)})
         big_n = [10 ** 6, (1 << 31) - 1, rng.randrange(4, 1 << 40)]
         for k in ks:
             if k < 0:
@@ -148,8 +159,11 @@ def run(ck):
                 if not 0 <= d < P:
                     continue
                 t = k * P + d
-                for n in ([ns_small[0], rng.choice(ns_small[1:])] if q else ns_small) + [rng.choice(big_n)]:
-                    add(P, t, n, "shape")
+                for n in ([rng.choice(ns_small)] if light else [ns_small[0], rng.choice(ns_small[1:])] if q else ns_small) + [rng.choice(big_n)]:
+                    add(P, t, n, origin, f)
+
+    for P in periods:
+        shapes(P, "shape")
     n_shape = len(cases) - n_direct
     # (c) hypotheses from the W-bit model at the top of the 64-bit word
     hyp_shapes = {}
@@ -179,6 +193,58 @@ def run(ck):
             add(P, M64 - P, n, "hypothesis-edge")               # just outside the region
     add(1000, 18446744073709551000, 0, "hypothesis:W12-example")     # DESIGN.md W12: the largest tick of a 1 GHz clock
     n_hyp = len(cases) - n_before
+    # (e) frequencies whose period is not a whole number of picoseconds: the oracle is stated relative to the
+    #     period p the code itself reports (Clock.tla instantiated with that p); p must be 10^12/f rounded either way.
+    binary = ck.binary("timingmisc")
+    fset = set()
+    named = [6, 3, 7, 9, 11, 13, 17, 19, 23, 29, 31, 37, 41, 43, 47, 53, 59, 61, 67, 71, 73, 79, 83, 89, 97, 60, 666, 999,
+             333 * 10 ** 6, 666 * 10 ** 6, 1200 * 10 ** 6, 1500 * 10 ** 6, 1600 * 10 ** 6, 2400 * 10 ** 6, 3200 * 10 ** 6,
+             1333 * 10 ** 6, 1866 * 10 ** 6, 2133 * 10 ** 6, 2666 * 10 ** 6, 2933 * 10 ** 6, 3600 * 10 ** 6, 4800 * 10 ** 6,
+             3 * 10 ** 11, 6 * 10 ** 11, 7 * 10 ** 11, 9 * 10 ** 11, PS - 1, PS - 2, PS // 2 + 1, PS // 2 - 1, PS // 3, PS // 3 + 1,
+             2 * PS // 3, 2 * PS // 3 + 1, 2 * PS // 3 - 1, 2 * PS // 5, 2 * PS // 5 + 1, 32768, 44100, 48000 * 3, 14318180, 33333333,
+             66666666, 133333333, 266666666, 533333333, 1066666666]
+    fset |= set(named)
+    # boundary families: 10^12 mod f in {1, f/2-1, f/2, f/2+1, f-1} (fractional part of the period next to 0, .5 and 1)
+    def residue_family(f):
+        r = PS % f
+        return r in (1, f - 1) or abs(2 * r - f) <= 2
+    fam = [f for f in range(2, 60000 if q else 400000) if residue_family(f)]
+    fset |= set(fam if len(fam) <= (150 if q else 800) else rng.sample(fam, 150 if q else 800))
+    for _ in range(300 if q else 1500):
+        # f next to 10^12/(m+1/2) and 10^12/m for a random whole number of picoseconds m
+        m = rng.randrange(1, 10 ** rng.randrange(1, 12))
+        for f0 in ((2 * PS) // (2 * m + 1), PS // m):
+            for df in (-1, 0, 1, 2):
+                if residue_family(f0 + df) if f0 + df >= 2 else False:
+                    fset.add(f0 + df)
+    for p in sorted({w["p"] for w in rows}):          # frequencies whose period is one of the table's small periods
+        fset |= {PS // p, PS // p - 1, PS // (p + 1) + 1, (2 * PS) // (2 * p + 1), (2 * PS) // (2 * p + 1) + 1}
+    for _ in range(200 if q else 1500):               # seeded sample over the whole range, log-uniform
+        fset.add(rng.randrange(1, 10 ** rng.randrange(1, 13)) if rng.random() < .5 else rng.randrange(1, PS + 1))
+    fs = sorted(f for f in fset if 1 <= f <= PS and PS % f != 0)
+    reported = core.harness(binary, "clock_periods", {"fs": [str(f) for f in fs]})["periods"]
+    n_before = len(cases)
+    rows_by_p = {}
+    for w in rows:
+        rows_by_p.setdefault(w["p"], []).append(w)
+    period_readings = {"floor": 0, "ceil": 0}
+    for f, ps in zip(fs, reported):
+        lo, hi = PS // f, -((-PS) // f)
+        if not ps.isdigit() or not (max(1, lo) <= int(ps) <= hi):
+            ck.report({"fn": "Period", "class": "not_the_period_in_ps", "period": "inexact"},
+                      "timing.Freq(%d).Period() = %s, but 10^12/f lies between %d and %d ps" % (f, ps, lo, hi),
+                      {"driver": "clock_periods", "fs": [str(f)]})
+            continue
+        P = int(ps)
+        period_readings["floor" if P == lo else "ceil"] += 1
+        for w in rows_by_p.get(P, [])[:: (3 if q else 1)]:
+            add(P, w["t"], w["n"], "table@reported-period", f)
+        shapes(P, "shape@reported-period", f, light=True)
+        top = ((M64 - 1) // P) * P
+        for t in (top, top - 1, M64 - P, M64 - P + 1, M64 - 1):
+            add(P, t, 0, "top@reported-period", f)
+    n_inexact = len(cases) - n_before
+    ck.cov["inexact_frequencies"] = dict(frequencies=len(fs), cases=n_inexact, period_reading=period_readings)
     # (d) seeded random
     n_before = len(cases)
     for _ in range(4000 if q else 60000):
@@ -189,7 +255,6 @@ def run(ck):
         add(P, t, n, "random")
     n_rand = len(cases) - n_before
 
-    binary = ck.binary("timingmisc")
     evaluations = 0
     mism = []
     B = 100000
@@ -209,9 +274,11 @@ def run(ck):
                       "1..MaxP and time 0..MaxT and emits the result table; ClockW.tla: TLC compares the freq.go formulas over "
                       "a W-bit word with the mathematics for every period and time of the word. Replayed on timing.Freq: the "
                       "table rows whose period is exact, their re-instantiation at k next to 2^31..2^64 for all 169 exact "
-                      "frequencies, the W-bit disagreement shapes at the top of the 64-bit word, seeded random cases. "
+                      "frequencies, the W-bit disagreement shapes at the top of the 64-bit word, seeded random cases, and the same table/"
+                      "shapes for frequencies with a fractional period relative to the period the code reports. "
                       "Non-trivial = distinct (f,t,n) with t off a tick or t >= 2^31.")
-    ck.assumptions += ["only frequencies with an integral period (divisors of 10^12 Hz, 1 Hz..1 THz)",
+    ck.assumptions += ["all 169 frequencies with an integral period (divisors of 10^12 Hz) + a sampled set of frequencies with a "
+                       "fractional period, for which the period is whatever Period() reports (floor or ceiling of 10^12/f)",
                        "n >= 0 for NCyclesLater", "results that do not fit in 64 bits are not compared",
                        "expected 64-bit values are the TLC table rows expressed as offsets in periods (Clock!ShapeLemma)"]
     for i in (0, n_direct + 5, len(cases) - n_rand - 3, len(cases) - 1):
@@ -223,7 +290,7 @@ def run(ck):
         ck.sample(dict(mismatch=dict(case=cases[m0["case"]], fn=m0["fn"], want=m0["want"], got=m0["got"])), cap=8)
     for m in mism:
         c, mt = cases[m["case"]], meta[m["case"]]
-        key = {"fn": m["fn"], "class": boundary_class(mt["P"], mt["t"])}
+        key = {"fn": m["fn"], "class": boundary_class(mt["P"], mt["t"]), "period": "exact" if mt["exact"] else "inexact"}
         desc = "timing.Freq(%s).%s(%s%s): specification %s, code %s [%s, period %s ps]" % (
             c["f"], m["fn"], ("%d, " % c["n"]) if m["fn"] == "NCyclesLater" else "", c["t"], m["want"], m["got"],
             mt["origin"], c["period"])
@@ -231,6 +298,8 @@ def run(ck):
             new += 1
     ck.note("evaluated %d cases (%d table, %d shapes, %d hypotheses, %d random), %d function results, %d mismatches (%d new)" % (
         len(cases), n_direct, n_shape, n_hyp, n_rand, evaluations, len(mism), new))
+    ck.note("of these, %d cases on %d frequencies with a fractional period (period reading of the code: %s)" % (
+        n_inexact, len(fs), period_readings))
 
 
 def replay(ck, doc):
@@ -240,7 +309,7 @@ def replay(ck, doc):
     for m in out["mismatches"] or []:
         c = rp["cases"][m["case"]]
         P, t = int(c["period"]), int(c["t"])
-        ck.report({"fn": m["fn"], "class": boundary_class(P, t)},
+        ck.report({"fn": m["fn"], "class": boundary_class(P, t), "period": "exact" if PS % int(c["f"]) == 0 else "inexact"},
                   "timing.Freq(%s).%s(%s): specification %s, code %s" % (c["f"], m["fn"], c["t"], m["want"], m["got"]), rp)
     ck.cov["traces_validated_against_impl"] += len(rp["cases"])
     ck.cov["rule"] = "replay of a recorded case"
